@@ -194,6 +194,19 @@ FUNCSETS = [['SUM', 'SUB', 'MUL', 'DIV'], ['SUM', 'MUL', 'SIN', 'COS'], ['SUB', 
 def hyper_post_sample(rng, kind, n_agents, hyper):
     """one non-adaptive hyperparameter re-set through its setter after construction (a legal value
     that keeps every ordered pair ordered)"""
+    if kind in ('IHS', 'AIWPSO') and rng.random() < 0.7:
+        # the range of an adaptive hyperparameter narrowed through the setters after construction (order kept)
+        d = type('D', (), {})()
+        lo_hi = [('PAR_min', 'PAR_max', 0.0, 1.0), ('bw_min', 'bw_max', 1.0, 10.0)] if kind == 'IHS' else [('w_min', 'w_max', 0.1, 0.9)]
+        out = {}
+        for lo_k, hi_k, dlo, dhi in lo_hi:
+            lo, hi = hyper.get(lo_k, dlo), hyper.get(hi_k, dhi)
+            mid = round((lo + hi) / 2, 6)
+            if rng.random() < 0.5:
+                out[hi_k] = mid
+            else:
+                out[lo_k] = mid
+        return out
     fresh = hyper_sample(rng, kind, n_agents, 'random')
     skip = ADAPTIVE.get(kind, set()) | {'w_min', 'w_max', 'PAR_min', 'PAR_max', 'bw_min', 'bw_max', 'f_min', 'f_max',
                                        'r_min', 'r_max', 'nsr'}
@@ -355,6 +368,26 @@ def install(L):
                                          if isinstance(getattr(self, k), list) and k != 'best_tree'},
                                lens={k: len(getattr(self, k)) for k in vars(self) if isinstance(getattr(self, k), list)}))
     History.dump = tap_dump
+    TS = L['TreeSpace']
+    o_grow = TS.grow
+    REC.grow_depth = 0
+    REC.grown = []
+
+    def tap_grow(self, min_depth=1, max_depth=3, *a, **k):
+        REC.grow_depth += 1
+        try:
+            t = o_grow(self, min_depth, max_depth, *a, **k)
+        finally:
+            REC.grow_depth -= 1
+        if REC.grow_depth == 0 and REC.active:
+            try:
+                REC.grown.append((int(min_depth), int(max_depth), int(t.max_depth), int(t.n_nodes)))
+            except Exception:
+                pass
+        return t
+    if not getattr(TS.grow, '_verif_tap', False):
+        tap_grow._verif_tap = True
+        TS.grow = tap_grow
     PSO = L['kinds']['PSO']
     o_pso_eval = PSO._evaluate
 
@@ -546,6 +579,7 @@ def record_run(cfg):
     install(L)
     np = L['np']
     REC.reset()
+    REC.grown = []
     events = REC.events
     rec = dict(cfg=cfg, events=events, error=None, history=None)
     try:
@@ -588,13 +622,17 @@ def record_run(cfg):
         # the same optimizer object has already run another task (other box / shape / length) before this one
         pr = dict(cfg, **cfg['prior'])
         try:
-            if pr['space'] == 'search':
+            if pr['space'] == 'tree':
+                psp = L['TreeSpace'](n_trees=pr['n_agents'], n_terminals=pr['n_terminals'], n_variables=pr['n_vars'],
+                                     n_iterations=pr['n_iter'], min_depth=pr['min_depth'], max_depth=pr['max_depth'],
+                                     functions=list(pr['functions']), lower_bound=list(pr['lb']), upper_bound=list(pr['ub']))
+            elif pr['space'] == 'search':
                 psp = L['SearchSpace'](n_agents=pr['n_agents'], n_variables=pr['n_vars'], n_iterations=pr['n_iter'],
                                        lower_bound=list(pr['lb']), upper_bound=list(pr['ub']))
             else:
                 psp = L['HyperSpace'](n_agents=pr['n_agents'], n_variables=pr['n_vars'], n_dimensions=pr['n_dims'],
                                       n_iterations=pr['n_iter'], lower_bound=list(pr['lb']), upper_bound=list(pr['ub']))
-            pfn = L['Function'](pointer=make_objective('sphere', np, pr['ub'] if pr['space'] == 'search' else [1.0] * pr['n_vars'], 'py'))
+            pfn = L['Function'](pointer=make_objective('sphere', np, pr['ub'] if pr['space'] != 'hyper' else [1.0] * pr['n_vars'], 'py'))
             opt.run(psp, pfn)
         except Exception as ex:
             rec['error'] = dict(phase='prior', type=type(ex).__name__, msg=str(ex)[:300], frames=[])
@@ -635,4 +673,5 @@ def record_run(cfg):
         signal.signal(signal.SIGALRM, old_handler)
         REC.active = False
     rec['adv_hits'] = REC.adv_hits
+    rec['grown'] = list(getattr(REC, 'grown', []))
     return rec
